@@ -78,23 +78,30 @@ Qed.
 (* ---------- induction on package trees ---------- *)
 Section TreeInd.
   Variable P : tree -> Prop.
-  Hypothesis HN : forall o ds, Forall P ds -> P (Node o ds).
+  Hypothesis HN : forall o s ds, Forall P ds -> P (Node o s ds).
   Fixpoint tree_ind' (t : tree) : P t :=
     match t with
-    | Node o ds =>
-        HN o ds ((fix go (l : list tree) : Forall P l :=
-                    match l with
-                    | [] => Forall_nil P
-                    | x :: xs => Forall_cons x (tree_ind' x) (go xs)
-                    end) ds)
+    | Node o s ds =>
+        HN o s ds ((fix go (l : list tree) : Forall P l :=
+                      match l with
+                      | [] => Forall_nil P
+                      | x :: xs => Forall_cons x (tree_ind' x) (go xs)
+                      end) ds)
     end.
 End TreeInd.
 
-(* two packages are indistinguishable for the compiler: same relevant inputs, and
-   indistinguishable imports, position by position *)
+(* two packages are indistinguishable for the compiler: same relevant inputs, and, import
+   by import, either the same immutable module version (id, version: the sources stored in
+   the module cache under a version do not change) or indistinguishable mutable packages *)
 Inductive rel_eq (rel : list kind) : tree -> tree -> Prop :=
-| RelEq o1 o2 d1 d2 :
-    agree rel o1 o2 -> Forall2 (rel_eq rel) d1 d2 -> rel_eq rel (Node o1 d1) (Node o2 d2).
+| RelEq o1 o2 s1 s2 d1 d2 :
+    agree rel o1 o2 ->
+    Forall2 (fun d d' =>
+               (immutable (tst d) = true /\ immutable (tst d') = true /\
+                town d KPkgId = town d' KPkgId /\ mver (tst d) = mver (tst d'))
+               \/ (immutable (tst d) = false /\ immutable (tst d') = false /\ rel_eq rel d d'))
+            d1 d2 ->
+    rel_eq rel (Node o1 s1 d1) (Node o2 s2 d2).
 
 Lemma length_trees m : length (trees m) = length m.
 Proof. induction m as [|p m IH]; cbn; [reflexivity | now rewrite IH]. Qed.
@@ -106,42 +113,62 @@ Proof.
   f_equal. apply IH. now injection H.
 Qed.
 
+Lemma module_version_faithful s :
+  module_version false s = if immutable s then Some (mver s) else None.
+Proof. destruct s; reflexivity. Qed.
+
 Section Sound.
   Variables key artifact : Type.
   Variable key_eqb : key -> key -> bool.
-  Variable digest : list value -> list key -> key.
+  Variable digest : list value -> list (dentry key) -> key.
   Variable compile : tree -> artifact.
   Variables fp_kinds relevant : list kind.
+  Variable ver_of : modst -> option value.
 
   Hypothesis key_eqb_spec : forall a b, key_eqb a b = true <-> a = b.
   (* sha256 of the rendered manifest has no collisions *)
   Hypothesis digest_inj : forall v1 k1 v2 k2, digest v1 k1 = digest v2 k2 -> v1 = v2 /\ k1 = k2.
-  (* the compiler looks at the relevant kinds only (of the package and of what it imports) *)
+  (* the compiler looks at the relevant kinds only (of the package and of the mutable
+     packages it imports) and at (id, version) of immutable imports *)
   Hypothesis compile_ext : forall t u, rel_eq relevant t u -> compile t = compile u.
 
-  Notation fp := (fp key digest fp_kinds).
+  Notation fp := (fp key digest fp_kinds ver_of).
+  Notation dep_entry := (dep_entry key digest fp_kinds ver_of).
   Notation lookup := (lookup key artifact key_eqb).
-  Notation build_one := (build_one key artifact key_eqb digest compile fp_kinds).
-  Notation build_list := (build_list key artifact key_eqb digest compile fp_kinds).
-  Notation build_cached := (build_cached key artifact key_eqb digest compile fp_kinds).
-  Notation run_cached := (run_cached key artifact key_eqb digest compile fp_kinds).
+  Notation build_one := (build_one key artifact key_eqb digest compile fp_kinds ver_of).
+  Notation build_list := (build_list key artifact key_eqb digest compile fp_kinds ver_of).
+  Notation build_cached := (build_cached key artifact key_eqb digest compile fp_kinds ver_of).
+  Notation run_cached := (run_cached key artifact key_eqb digest compile fp_kinds ver_of).
+
+  Lemma fp_unfold o s ds :
+    fp (Node o s ds) = digest (vals fp_kinds o) (if memk KDeps fp_kinds then map dep_entry ds else []).
+  Proof.
+    cbn. destruct (memk KDeps fp_kinds); [|reflexivity]. f_equal.
+    apply map_ext. intros [o' s' ds']. reflexivity.
+  Qed.
 
   Section Covered.
     Hypothesis Hcov : covers fp_kinds (KDeps :: relevant) = true.
+    (* moduleVersion: the version exactly for the immutable modules *)
+    Hypothesis Hpol : forall s, ver_of s = if immutable s then Some (mver s) else None.
 
     Lemma deps_in : memk KDeps fp_kinds = true.
     Proof. apply memk_In. apply (proj1 (covers_incl _ _) Hcov). now left. Qed.
 
     Lemma fp_rel_eq : forall t u, fp t = fp u -> rel_eq relevant t u.
     Proof.
-      induction t as [o ds IH] using tree_ind'. intros [o2 d2] H.
-      cbn in H. rewrite deps_in in H. apply digest_inj in H as [Hv Hd].
+      induction t as [o s ds IH] using tree_ind'. intros [o2 s2 d2] H.
+      rewrite !fp_unfold, deps_in in H. apply digest_inj in H as [Hv Hd].
       constructor.
       - apply vals_agree in Hv. intros k Hk. apply Hv.
         apply (proj1 (covers_incl _ _) Hcov). now right.
       - revert d2 Hd. induction IH as [|x xs Hx _ IHxs]; intros [|y ys] Hd; cbn in Hd; try discriminate.
         + constructor.
-        + injection Hd as H1 H2. constructor; [now apply Hx | now apply IHxs].
+        + injection Hd as H1 H2. constructor; [|now apply IHxs].
+          unfold Model.dep_entry in H1. rewrite !Hpol in H1.
+          destruct (immutable (tst x)) eqn:Ix, (immutable (tst y)) eqn:Iy; try discriminate H1.
+          * left. injection H1 as E1 E2. auto.
+          * right. injection H1 as E1. auto.
     Qed.
 
     (* every cached archive was compiled from a package with that fingerprint *)
@@ -208,14 +235,12 @@ Section Sound.
   End Covered.
 
   (* ---------- the converse: an uncovered relevant kind gives a stale history ---------- *)
-  Lemma lookup_head k a c : lookup k ((k, a) :: c) = Some a.
-  Proof. cbn. now rewrite (proj2 (key_eqb_spec k k) eq_refl). Qed.
-
-  Definition one_pkg (i : inputs) : module := [ {| p_own := i; p_deps := []; p_cacheable := true |} ].
+  Definition one_pkg (i : inputs) : module :=
+    [ {| p_own := i; p_deps := []; p_cacheable := true; p_mod := MMain |} ].
 
   Lemma uncovered_stale_lemma k i v :
     ~ In k fp_kinds ->
-    compile (Node (upd i k v) []) <> compile (Node i []) ->
+    compile (Node (upd i k v) MMain []) <> compile (Node i MMain []) ->
     run_cached (one_pkg i) [] [Build; EditPkg 0 k v; Build]
     <> run_clean artifact compile (one_pkg i) [Build; EditPkg 0 k v; Build].
   Proof.
@@ -227,12 +252,14 @@ Section Sound.
   Qed.
 
   (* ---------- fingerprints are transitive over the import graph ---------- *)
-  (* [sub_pair t t' u u']: u and u' sit at the same position below t and t' *)
+  (* [sub_pair t t' u u']: u and u' sit at the same position below t and t', and every
+     package on the way down is recorded by fingerprint in its importer *)
   Inductive sub_pair : tree -> tree -> tree -> tree -> Prop :=
   | SubHere t t' : sub_pair t t' t t'
-  | SubDep o o' ds ds' n d d' u u' :
+  | SubDep o o' s s' ds ds' n d d' u u' :
       nth_error ds n = Some d -> nth_error ds' n = Some d' ->
-      sub_pair d d' u u' -> sub_pair (Node o ds) (Node o' ds') u u'.
+      ver_of (tst d) = None -> ver_of (tst d') = None ->
+      sub_pair d d' u u' -> sub_pair (Node o s ds) (Node o' s' ds') u u'.
 
   Lemma map_nth_error_eq {A B} (f : A -> B) l l' n x x' :
     map f l = map f l' -> nth_error l n = Some x -> nth_error l' n = Some x' -> f x = f x'.
@@ -246,9 +273,29 @@ Section Sound.
     memk KDeps fp_kinds = true ->
     sub_pair t t' u u' -> fp t = fp t' -> fp u = fp u'.
   Proof.
-    intros HD S. induction S as [|o o' ds ds' n d d' u u' H1 H2 S IH]; [trivial|].
-    cbn. rewrite HD. intros H. apply digest_inj in H as [_ H]. apply IH.
-    eapply map_nth_error_eq; eassumption.
+    intros HD S. induction S as [|o o' s s' ds ds' n d d' u u' H1 H2 V1 V2 S IH]; [trivial|].
+    rewrite !fp_unfold, HD. intros H. apply digest_inj in H as [_ H]. apply IH.
+    pose proof (map_nth_error_eq dep_entry _ _ _ _ _ H H1 H2) as E.
+    unfold Model.dep_entry in E. rewrite V1, V2 in E. now injection E.
+  Qed.
+
+  (* an edit of a kind the manifest contains changes the package's own fingerprint *)
+  Lemma edit_changes_fp o s ds k v :
+    In k fp_kinds -> v <> o k -> fp (Node (upd o k v) s ds) <> fp (Node o s ds).
+  Proof.
+    intros Hk Hv H. rewrite !fp_unfold in H. apply digest_inj in H as [H _].
+    apply vals_agree in H. specialize (H k Hk). rewrite upd_same in H. contradiction.
+  Qed.
+
+  (* a dependency recorded by version only: editing it leaves the importer's fingerprint alone *)
+  Lemma versioned_dep_edit_invisible o s d1 d2 k v w rest :
+    ver_of (tst d1) = Some w -> k <> KPkgId ->
+    d2 = Node (upd (town d1) k v) (tst d1) (match d1 with Node _ _ x => x end) ->
+    fp (Node o s (d2 :: rest)) = fp (Node o s (d1 :: rest)).
+  Proof.
+    intros Hv Hk ->. rewrite !fp_unfold. f_equal. destruct (memk KDeps fp_kinds); [|reflexivity].
+    cbn [map]. f_equal. destruct d1 as [o1 s1 x1]. unfold Model.dep_entry. cbn [tst town] in *.
+    rewrite Hv. now rewrite upd_other by (intros E; apply Hk; now rewrite E).
   Qed.
 End Sound.
 
@@ -272,26 +319,42 @@ Proof.
     apply list_eqb_refl. apply N.eqb_refl.
 Qed.
 
+Lemma cdentry_inj a b : cdentry a = cdentry b -> a = b.
+Proof. destruct a, b; cbn; intros H; try discriminate H; injection H; intros; subst; reflexivity. Qed.
+
+Lemma map_inj {A B} (f : A -> B) : (forall a b, f a = f b -> a = b) -> forall l l', map f l = map f l' -> l = l'.
+Proof.
+  intros Hf. induction l as [|x xs IH]; intros [|y ys]; cbn; intros H; try discriminate; [reflexivity|].
+  injection H as H1 H2. f_equal; auto.
+Qed.
+
 Lemma cdigest_inj : forall v1 k1 v2 k2, cdigest v1 k1 = cdigest v2 k2 -> v1 = v2 /\ k1 = k2.
-Proof. unfold cdigest. intros v1 k1 v2 k2 H. now injection H. Qed.
+Proof.
+  unfold cdigest. intros v1 k1 v2 k2 H. injection H as H1 H2. split; [assumption|].
+  now apply (map_inj cdentry cdentry_inj).
+Qed.
 
 Lemma ccompile_ext : forall t u, rel_eq relevant_kinds t u -> ccompile t = ccompile u.
 Proof.
-  induction t as [o ds IH] using tree_ind'. intros u H. inversion H as [o1 o2 d1 d2 Ha Hd]; subst.
+  induction t as [o s ds IH] using tree_ind'. intros u H. inversion H as [o1 o2 s1 s2 d1 d2 Ha Hd]; subst.
   cbn [ccompile]. f_equal.
   - now apply vals_agree.
-  - clear H Ha. revert d2 Hd. induction IH as [|x xs Hx _ IHxs]; intros d2 Hd; inversion Hd; subst; cbn.
+  - clear H Ha. revert d2 Hd. induction IH as [|x xs Hx _ IHxs]; intros d2 Hd; inversion Hd as [|a b l l' Hab Hl]; subst; cbn [map].
     + reflexivity.
-    + f_equal; [now apply Hx | now apply IHxs].
+    + f_equal; [|now apply IHxs].
+      destruct x as [ox sx dx], b as [oy sy dy]. cbn [tst town] in Hab.
+      destruct Hab as [(I1 & I2 & E1 & E2) | (I1 & I2 & R)]; rewrite I1, I2.
+      * now rewrite E1, E2.
+      * f_equal. f_equal. now apply Hx.
 Qed.
 
 Lemma concrete_sound fpk :
   covers fpk (KDeps :: relevant_kinds) = true ->
-  forall m h, crun_cached fpk m h = crun_clean m h.
+  forall m h, crun_cached false fpk m h = crun_clean m h.
 Proof.
   intros Hc m h. unfold crun_cached, crun_clean.
   apply cache_sound_lemma with (relevant := relevant_kinds);
-    auto using ktree_eqb_spec, cdigest_inj, ccompile_ext.
+    auto using ktree_eqb_spec, cdigest_inj, ccompile_ext, module_version_faithful.
 Qed.
 
 Lemma outs_eqb_refl x : outs_eqb x x = true.
@@ -303,12 +366,12 @@ Qed.
 Lemma concrete_not_stale fpk :
   covers fpk (KDeps :: relevant_kinds) = true -> forall mh, stale fpk mh = false.
 Proof.
-  intros Hc [m h]. unfold stale. cbn [fst snd]. rewrite (concrete_sound fpk Hc). now rewrite outs_eqb_refl.
+  intros Hc [m h]. unfold stale, stale_pol. cbn [fst snd]. rewrite (concrete_sound fpk Hc). now rewrite outs_eqb_refl.
 Qed.
 
 Lemma concrete_uncovered_stale fpk k :
   In k relevant_kinds -> ~ In k fpk ->
-  crun_cached fpk (one_pkg (base_inputs 7)) [Build; EditPkg 0 k 1%N; Build]
+  crun_cached false fpk (one_pkg (base_inputs 7)) [Build; EditPkg 0 k 1%N; Build]
   <> crun_clean (one_pkg (base_inputs 7)) [Build; EditPkg 0 k 1%N; Build].
 Proof.
   intros Hr Hn. unfold crun_cached, crun_clean.
@@ -318,5 +381,4 @@ Proof.
     by exact (f_equal (fun t => match t with K vs _ => vs end) H0).
   apply vals_agree in H. specialize (H k Hr).
   rewrite upd_same in H. destruct k; cbn in H; try discriminate H.
-  (* KPkgId: base_inputs 7 KPkgId = 7, updated to 1 *)
 Qed.
